@@ -81,6 +81,7 @@ type env struct {
 	gapOK          bool
 	noNilSerGroups bool
 	modelMapBroken bool
+	noEmptyNotNull map[string]bool // kind names: an empty byte slice in a NOT NULL column was refused (reported once)
 }
 
 func (e *env) tx() *gorm.DB {
@@ -261,6 +262,11 @@ func (e *env) newRec(shape string, idx int, keyMode string, fnZero map[int]bool,
 			}
 		case e.nilSelf && l.typ == ptrTo(SelfJS{}):
 			v = reflect.Zero(l.typ)
+		case l.notNull && l.class == "bytes":
+			v = genValue(r, l, 2) // never nil (NULL is not representable in the column); empty is
+			for e.noEmptyNotNull[l.kindName()] && v.Len() == 0 {
+				v = genValue(r, l, 2)
+			}
 		default:
 			v = genValue(r, l, 0)
 		}
@@ -471,6 +477,11 @@ func (e *env) checkStored(rc *rec, mixed bool) bool {
 				e.problem("stored/"+l.kindName(), "record %d: column %s holds NULL, its database default should have produced a value", rc.idx, l.col)
 			}
 			x.canon, x.any = got, false
+		} else if l.class == "bytes" && x.canon == "b:" && cell == nil {
+			// its own class: a byte slice that is empty but not nil is a value (a BLOB of length zero), the column
+			// holds NULL instead. The reads that follow are compared with what the column holds.
+			e.problem("stored/"+emptyBytesSig+l.kindName(), "record %d: column %s holds NULL, Create was handed an empty non-nil %s (a value of length zero; only a nil slice is NULL)", rc.idx, l.col, l.kindName())
+			x.canon = "NULL"
 		} else if got != x.canon && !(x.rawNullOK && cell == nil) {
 			e.problem("stored/"+l.kindName(), "record %d: column %s stores %s, Create was handed %s", rc.idx, l.col, clip(got), clip(x.canon))
 		}
@@ -489,6 +500,54 @@ func (e *env) checkStored(rc *rec, mixed bool) bool {
 		e.c.Inc("cells_compared_raw")
 	}
 	return true
+}
+
+const emptyBytesSig = "empty-byte-slice-as-NULL/"
+
+// alignEmptyBytes: for a record whose row cannot be addressed by its in-memory key (so that checkStored
+// did not compare its columns) the row is looked up by its payload, to see whether an empty non-nil byte
+// slice became NULL: that class keeps its own signature, and the reads that follow (Find of the whole
+// table, matched by payload) are compared with what the column holds.
+func (e *env) alignEmptyBytes(rc *rec) {
+	need := false
+	for _, l := range e.m.leaves {
+		need = need || (l.class == "bytes" && rc.exp[l.ord].set && rc.exp[l.ord].canon == "b:")
+	}
+	if !need {
+		return
+	}
+	rows, err := vdb.RowMaps(e.h.SQL, "SELECT * FROM `"+e.m.table+"` WHERE `"+e.m.payload.col+"` = ?", rc.payload)
+	if err != nil || len(rows) != 1 {
+		return
+	}
+	for _, l := range e.m.leaves {
+		x := &rc.exp[l.ord]
+		if l.class != "bytes" || !x.set || x.canon != "b:" {
+			continue
+		}
+		if cell, ok := rows[0][l.col]; ok && cell == nil {
+			e.problem("stored/"+emptyBytesSig+l.kindName(), "record %d (row found by its payload %q): column %s holds NULL, Create was handed an empty non-nil %s (a value of length zero; only a nil slice is NULL)", rc.idx, rc.payload, l.col, l.kindName())
+			x.canon = "NULL"
+		}
+	}
+}
+
+// emptyBytesRefused: the database refused the INSERT because a NOT NULL column was sent NULL, and that
+// column belongs to a byte-slice field that is empty but not nil in one of the records: the same class
+// as stored/empty-byte-slice-as-NULL, met as an error. Returns the kind name ("" otherwise).
+func (e *env) emptyBytesRefused(recs []*rec, msg string) string {
+	for _, l := range e.m.leaves {
+		if l.class != "bytes" || !l.notNull || !strings.Contains(msg, "NOT NULL constraint failed: "+e.m.table+"."+l.col) {
+			continue
+		}
+		for _, rc := range recs {
+			if g := rc.given[l.ord]; g.IsValid() && canonGo(l, g) == "b:" {
+				e.noEmptyNotNull[l.kindName()] = true
+				return l.kindName()
+			}
+		}
+	}
+	return ""
 }
 
 func colNames(row map[string]interface{}) []string {
@@ -801,6 +860,9 @@ func (e *env) runStructShape(shape string, forceKey string) {
 				}
 			}
 		}
+		if k := e.emptyBytesRefused(recs, msg); k != "" {
+			sig = "create-error/" + emptyBytesSig + k
+		}
 		if mm := scanErrCol.FindStringSubmatch(msg); mm != nil && e.ret {
 			for _, l := range m.shadowed {
 				if l.col == mm[1] && l.defFn != "" {
@@ -817,6 +879,8 @@ func (e *env) runStructShape(shape string, forceKey string) {
 		e.expectStruct(rc, before, after, mixed)
 		if !rc.keyBad && e.checkStored(rc, mixed) {
 			e.checkReads(rc)
+		} else {
+			e.alignEmptyBytes(rc)
 		}
 		e.all = append(e.all, rc)
 	}
@@ -937,7 +1001,11 @@ func (e *env) runMapShape(shape string) {
 	e.callBad = false
 	if res.Error != nil {
 		e.ops[len(e.ops)-1] += fmt.Sprintf("  -> error: %v", res.Error)
-		e.problem("create-error/"+shape+"/"+e.opt, "Create returned %v", res.Error)
+		sig := "create-error/" + shape + "/" + e.opt
+		if k := e.emptyBytesRefused(recs, res.Error.Error()); k != "" {
+			sig = "create-error/" + emptyBytesSig + k
+		}
+		e.problem(sig, "Create returned %v", res.Error)
 		e.flush()
 		return
 	}
@@ -965,6 +1033,8 @@ func (e *env) runMapShape(shape string) {
 		}
 		if !rc.keyBad && e.checkStored(rc, false) {
 			e.checkReads(rc)
+		} else {
+			e.alignEmptyBytes(rc)
 		}
 		if rc.keyBad {
 			// the row exists, but the final Find cannot say which one it is by key: keep it by payload
@@ -1179,7 +1249,7 @@ func runEnv(c *core.Ctx, m *model, o optSpec, feats []string, info map[string]in
 			ok = false
 		}
 	}()
-	e = &env{c: c, r: c.R.Fork(), h: h, m: m, opt: o.name, ret: !o.o.NoReturning, firstID: o.o.FirstID, viol: map[string][]string{}, emitted: map[string]bool{}, big: 1000, info: info, fs: strings.Join(feats, ",")}
+	e = &env{c: c, r: c.R.Fork(), h: h, m: m, opt: o.name, ret: !o.o.NoReturning, firstID: o.o.FirstID, viol: map[string][]string{}, emitted: map[string]bool{}, noEmptyNotNull: map[string]bool{}, big: 1000, info: info, fs: strings.Join(feats, ",")}
 	c.Logf("MODE %s table %s", o.name, m.table)
 	if err := e.tx().AutoMigrate(e.newModelPtr()); err != nil {
 		e.op("%s.AutoMigrate(&T{}) -> %v", e.recv(), err)
@@ -1296,7 +1366,9 @@ func run(c *core.Ctx) {
 var Engine = &core.Engine{
 	ID:    "C03",
 	Level: "exploration",
-	Rule: "one generated model type per case (reflect.StructOf over 62 field kinds: all int/uint widths, floats, bool, string, []byte, time.Time, pointers to each, sql.Null*, " +
+	Rule: "one generated model type per case (reflect.StructOf over 71 field kinds: all int/uint widths, floats, bool, string, []byte, time.Time, pointers to each (also *[]byte), sql.Null*, " +
+		"NAMED types without Valuer/Scanner, which gorm only knows by their reflect.Kind (type Blob []byte, Status string, Level int32, Count uint16, Ratio float64; *Blob, *Status, *Level), " +
+		"byte slices nil / EMPTY BUT NOT NIL / non-empty in every position (struct field, behind a pointer, map value of Create, NOT NULL column - there never nil): nil is NULL, empty is a value of length zero, and the two are told apart in the column (raw SQL), in loaded structs and in maps; " +
 		"custom Scanner/Valuer types string-/struct-/slice-/map-based with value and pointer receivers, serializer json/gob/unixtime, types that are their own serializer with merging Scan (struct with omitempty members, map, slice, string; records get different member sets; serialized structs / maps / slices differ between records in which members are zero, which keys a map has and how long a slice is); tags column (plain, mixed case, an SQL keyword, and - in a quarter of the generated models - " +
 		"the exact Go name of ANOTHER field of the model whose own column is a different one, also crossed: A `column:B`, B `column:A`; the other field may be a key or a leaf of an embedded struct; names with a DOUBLE UNDERSCORE - gorm's own separator for the columns of joined relations - as legacy separator, leading, trailing, twice, spelled <GoName>__<column>; names that need quoting: dash, blank, #, leading digit), literal and " +
 		"database-function defaults, default:null, autoCreateTime/autoUpdateTime (time, s, ms, ns; by tag and by name), not null, <- permissions; value- and pointer-embedded structs with " +
@@ -1315,7 +1387,9 @@ var Engine = &core.Engine{
 		"its in-memory key with raw SQL, and every column and every gorm read (First/Take/Find into structs and maps) was compared; a reused-destination round (reused-map/model|table, reused-struct, reused-struct-other, scanrows/map|struct, reused-slice) counts when all its reads compared equal",
 	Assumptions: []string{
 		"a Go-zero value in a field carrying a default tag means 'use the default' (gorm's documented rule); the expected value is then the tag's literal or the database's result",
-		"values are representable in the column type: uint64 < 2^63, valid UTF-8 without NUL, no NaN/Inf, times in years 1..9999 with whole-minute zone offsets; times are compared as instants, -0 == +0, nil and empty []byte are equal",
+		"values are representable in the column type: uint64 < 2^63, valid UTF-8 without NUL, no NaN/Inf, times in years 1..9999 with whole-minute zone offsets; times are compared as instants, -0 == +0",
+		"a nil byte slice ([]byte, a named byte slice, or what a *[]byte points to) is NULL and an empty non-nil one is a value of length zero: the column must hold NULL for the first and a non-NULL value for the second, and a loaded field / map value must be nil resp. non-nil and empty ('NULLs' and 'boundary values' are both in the quantifier, so the two are different field values). A non-nil pointer to a nil slice and a nil pointer are both NULL and not told apart. An empty non-nil byte slice that arrives as NULL (or is refused by a NOT NULL column) has its own signatures, (stored|create-error)/empty-byte-slice-as-NULL/<kind>; after it was reported the reads of that record are compared with what the column holds, and the NOT NULL variant is not provoked again in that database",
+		"named types without Valuer/Scanner are generated for the kinds byte slice, string, signed and unsigned integer and float; a named bool is not generated (database/sql cannot assign the int64 that SQLite and MySQL drivers deliver for a boolean column to a named bool type: 'unsupported Scan, storing driver.Value type int64 into type *Flag', a limit below gorm), nor named time types or byte arrays",
 		"nullable wrappers are generated canonical (Valid=false implies a zero payload) and compared as (Valid, value-if-valid)",
 		"a nil pointer-embedded struct equals one whose leaf fields are all zero; its columns may hold NULL",
 		"slice- and map-based Scanner/Valuer types carry a type: tag or GormDataType; unixtime serializer fields carry type:datetime (go-sqlite3 only parses date/datetime/timestamp columns into time.Time)",
